@@ -33,8 +33,8 @@ ASSUMPTIONS = [
 ]
 
 STUB = os.path.join(core.VERIF, "tools", "fake-eyaml")
-KINDS = ("secret", "folded", "spaced", "plain", "xenc", "lowenc", "int",
-         "null")
+KINDS = ("secret", "folded", "spaced", "split", "plain", "xenc", "lowenc",
+         "int", "null")
 SKELETONS = ["hash2", "hash3", "list3", "nested", "deep"]
 CASES = []
 
@@ -66,6 +66,12 @@ def slot_text(kind, plain, key, indent):
     if kind == "folded":
         enc = fake_eyaml.encrypt(plain, key)
         lines = [enc[i:i + 30] for i in range(0, len(enc), 30)]
+        return " >\n" + "\n".join(pad + l for l in lines)
+    if kind == "split":
+        # white-space and a line break INSIDE the ENC[ marker itself
+        enc = fake_eyaml.encrypt(plain, key)
+        lines = [enc[:2], enc[2:20]] + [enc[i:i + 30]
+                                        for i in range(20, len(enc), 30)]
         return " >\n" + "\n".join(pad + l for l in lines)
     if kind == "spaced":
         enc = fake_eyaml.encrypt(plain, key)
@@ -189,7 +195,7 @@ def plan(tier):
     nslots = {"hash2": 2, "hash3": 3, "list3": 3, "nested": 3, "deep": 2}
     for skel in SKELETONS:
         kinds_pool = KINDS if (tier != "quick" or nslots[skel] == 2) else (
-            "secret", "folded", "spaced", "plain", "xenc", "null")
+            "secret", "folded", "spaced", "split", "plain", "xenc", "null")
         for kinds in itertools.product(kinds_pool, repeat=nslots[skel]):
             CASES.append(("grid", skel, kinds))
     for i in range(N_ANCHORED):
@@ -268,7 +274,7 @@ def value_at(doc, pos):
 
 
 def is_secret_kind(kind):
-    return kind in ("secret", "folded", "spaced")
+    return kind in ("secret", "folded", "spaced", "split")
 
 
 def check_multi(st, wd, kf, files, backup):
